@@ -17,7 +17,7 @@ from .engine_p import Session, first_difference
 from .oracles_g import _deep_equal
 
 N_RUNS = {
-    "C07": (3400, 30000), "C08": (2500, 25000), "C09": (1700, 14000), "C12": (6000, 50000), "C18": (3000, 25000),
+    "C07": (6000, 50000), "C08": (4500, 40000), "C09": (1700, 14000), "C12": (8000, 60000), "C18": (5500, 45000),
 }
 SEEDS = [0, 1, 42, 2 ** 31 - 1, 123456789, 2 ** 32 - 1, 7]
 
